@@ -13,6 +13,7 @@ from values import I, F, S, var, reg, opt, rec  # noqa: E402
 
 class C07(e1.E1Check):
     id = "C07"
+    l3_table = "C07"
     types_quick = [I, var(I), var(var(I)), reg(0, I), reg(1, I), reg(2, I), reg(3, I), var(reg(2, I)), opt(var(I)), var(opt(I)),
                    var(rec(("x", I), ("y", F))), var(var(var(I))), reg(2, var(I)), var(S), var(opt(var(I))), opt(I)]
     types_thorough = types_quick + [var(reg(3, I)), reg(4, I), var(var(opt(I))), opt(var(var(I))), reg(2, reg(2, I)), rec(("x", I))]
